@@ -261,6 +261,15 @@ func e2e(q string, n int) string {
 		oids = nil
 	}
 	b := append(pgwire.Parse("s", q, oids), pgwire.Describe('S', "s")...)
+	if (len(q)+n)%3 == 1 {
+		// the name held another statement before (with fewer, or with more, placeholders): what Describe
+		// announces is the count of the text parsed last
+		first := "select 1"
+		if n%2 == 1 {
+			first = "select $1, $2, $3, $4, $5, $6, $7, $8, $9"
+		}
+		b = append(pgwire.Parse("s", first, nil), b...)
+	}
 	b = append(b, pgwire.Sync()...)
 	r := s.Send(b)
 	if r.Err != nil {
